@@ -234,7 +234,7 @@ RULE = ("every configuration of the standard table (8..1088 bits, thorough: 8192
         "the same case and a second one go through U.cmp_prim / I.cmp_prim (bnum vs the primitive integer of the same "
         "value under the same format string, expected equal).  All 8-bit values x 8 traits x U/I x 3 (thorough 6) flag "
         "sets on both op families; thorough: all 16-bit values on (8,2) / (16,1) for hex, binary, octal, decimal and "
-        "exponent forms.  Non-trivial = an output of at least two bytes / a compared value of magnitude >= 2.")
+        "exponent forms.  Non-trivial = an output of at least two bytes / a compared bit pattern other than 0 and 1.")
 
 
 def nontrivial(case, result):
@@ -242,5 +242,5 @@ def nontrivial(case, result):
     if toks[0].endswith("cmp_prim"):
         w = int(toks[1])
         v = from_digits(parse_L(toks[3]), w)
-        return 2 <= v < (1 << (w * int(toks[2]))) - 1 or toks[0].startswith("U")
+        return v >= 2
     return result.startswith("L:") and result.count(",") >= 1
